@@ -87,7 +87,8 @@ Fixpoint copy_loop (fuel : nat) (cfg : wcfg) (keys : list bytes) (w : mw) (p : b
 Inductive chunk :=
 | CWrite (p : bytes)          (* w.Write(p) *)
 | CString (p : bytes)         (* io.WriteString(w, s) *)
-| CReadFrom (p : bytes).      (* w.ReadFrom(r), r a reader that returns (0, io.EOF) after its last bytes *)
+| CReadFrom (p : bytes)       (* w.ReadFrom(r), r a reader that returns (0, io.EOF) after its last bytes *)
+| CReadFromE (p : bytes).     (* w.ReadFrom(r), r a reader that returns its last bytes together with io.EOF *)
 
 Definition feed (cfg : wcfg) (keys : list bytes) (w : mw) (c : chunk) : (bytes * list bytes * mw) + werr :=
   match c with
@@ -95,6 +96,7 @@ Definition feed (cfg : wcfg) (keys : list bytes) (w : mw) (c : chunk) : (bytes *
       if (2 * wc_buf cfg <? N.of_nat (length p)) && wc_server cfg then flush_frame cfg keys w false p   (* don't buffer large messages *)
       else copy_loop (S (length p)) cfg keys w p []
   | CString p => copy_loop (S (length p)) cfg keys w p []
+  | CReadFromE p => copy_loop (S (length p)) cfg keys w p []      (* the loop ends with the last Read: no flush of a full buffer *)
   | CReadFrom p =>
       match copy_loop (S (length p)) cfg keys w p [] with
       | inl (wire, keys', w') =>
@@ -248,5 +250,16 @@ Fixpoint write_all (cfg : wcfg) (keys : list bytes) (sent : bool) (ops : list wo
   | o :: ops' =>
       let '(wire, keys', sent', e) := write_op cfg keys sent o in
       let '(wire', es) := write_all cfg keys' sent' ops' in
+      (wire ++ wire', e :: es)
+  end.
+
+(* c.EnableWriteCompression(b) between operations: every operation is tagged with the flag in force *)
+Fixpoint write_all_t (cfg : wcfg) (keys : list bytes) (sent : bool) (ops : list (bool * wop)) : bytes * list (option werr) :=
+  match ops with
+  | [] => ([], [])
+  | (z, o) :: ops' =>
+      let cfg' := mkWcfg (wc_server cfg) (wc_buf cfg) (wc_compress cfg && z) in
+      let '(wire, keys', sent', e) := write_op cfg' keys sent o in
+      let '(wire', es) := write_all_t cfg keys' sent' ops' in
       (wire ++ wire', e :: es)
   end.
